@@ -129,9 +129,9 @@ def gen_cases(ctx):
     rng = ctx.rng
     cases = [{"evs": PROBE, "profile": "probe"}]
     cases += [{"evs": e, "profile": "corpus"} for e in corpus_cases()]
-    plan = [("structured", 140, 60), ("random", 120, 50), ("selfheavy", 40, 40)]
+    plan = [("structured", 110, 60), ("random", 90, 50), ("selfheavy", 30, 40)]
     if ctx.thorough:
-        plan = [(p, n * 12, l) for p, n, l in plan]
+        plan = [(p, n * 9, l) for p, n, l in plan]
     for profile, n, length in plan:
         for _ in range(n):
             nn, ne = rng.randint(2, 4), rng.randint(1, 4)
@@ -345,7 +345,7 @@ THEOREMS = ["C34_joined_at_most_once", "C34_left_at_most_once", "C34_left_at_mos
             "C34_never_reports_self_partial", "C34_left_only_when_settled"]
 
 META = {
-    "ready": False,
+    "ready": True,
     "category": "proof",
     "technique": "Rocq invariant proofs over an executable model of the event tracker + differential execution against the real handler fed olric's JSON payloads",
     "text": "The tracker (both filters, timestamp maps, epoch maps, latest epochs, seen sets; join/left notifications, rebalance start/complete, the overdue emitter) is modelled as written; proved for every history with any peers, epochs, duplicates and orders: between two NodeJoined n there is a departure notification or NodeLeft n; NodeLeft n is emitted at most once (ever); NodeJoined self is never emitted, and with the self filter on departures neither is NodeLeft self (refuted by a two-notification witness for the tree without the filter); every NodeLeft n is emitted by n's timeout or by a step after which the latest left-reason epoch is started and complete within the history.",
